@@ -894,6 +894,18 @@ impl RootRef<'_> {
             description: "file creation path has trailing slash".into(),
         })?;
 
+        // O_PATH makes the kernel silently ignore O_CREAT, so nothing would be
+        // created and we would hand out a handle to whatever the name refers
+        // to -- for "." and ".." that is the parent directory itself or even
+        // its parent, which for the root lies outside of the root. openat2(2)
+        // rejects O_CREAT|O_PATH with EINVAL, so do the same.
+        if flags.contains(OpenFlags::O_PATH) {
+            Err(ErrorImpl::InvalidArgument {
+                name: "flags".into(),
+                description: "O_PATH cannot be used when creating a file".into(),
+            })?
+        }
+
         // XXX: openat2(2) supports doing O_CREAT on trailing symlinks without
         // O_NOFOLLOW. We might want to expose that here, though because it
         // can't be done with the emulated backend that might be a bad idea.
